@@ -84,6 +84,9 @@ def judge(case, r, info):
                     return Violation("concurrent-push-corrupt:" + v.rule, v.detail)
         return None
     only_timeouts = all(common.is_timeout(res) for _, _, res, _ in deviations)
+    if getattr(r, "dropped_clse_with_entry", None):
+        return Violation("clse-dropped-although-stream-has-a-store-entry", "CLSE for %r was read by a worker that did not own the stream and was discarded although earlier packets of that stream had been parked "
+                         "(this is not K1: K1 concerns streams with no store entry); deviations: %r" % (r.dropped_clse_with_entry, [(i, res.get("exc")) for i, _, res, _ in deviations]))
     if only_timeouts and r.dropped_clse:
         lids = set(a1 for _, a1 in r.dropped_clse)
         v = Violation("K1-clse-of-live-stream-discarded", "CLSE for local ids %r was read by a worker that did not own the stream and discarded; owners timed out" % sorted(lids), signature="K1")
@@ -198,7 +201,7 @@ def generator_cases(draw):
 
 
 def check_generators(case):
-    conc.OBS.update(puts=0, dropped_clse=[], active=True)
+    conc.obs_reset()
     try:
         out = runner.build(case, async_=False)
         dev = out.device
@@ -233,6 +236,8 @@ def check_generators(case):
     if not dev_:
         return None, info
     timeouts_only = all(excs[g] is not None and type(excs[g]).__name__ in ("AdbTimeoutError", "TcpTimeoutException") and got[g] == want[g][:len(got[g])] for g in dev_)
+    if conc.OBS["dropped_clse_with_entry"]:
+        return Violation("clse-dropped-although-stream-has-a-store-entry", "interleaved generators: CLSE %r discarded although earlier packets of that stream had been parked (not K1)" % conc.OBS["dropped_clse_with_entry"]), info
     if timeouts_only and dropped:
         return Violation("K1-clse-of-live-stream-discarded", "interleaved generators: CLSE %r discarded" % dropped, signature="K1"), info
     g = dev_[0]
